@@ -177,6 +177,12 @@ func (store *ModuleStore) GetModule(name string) (*Module, error) {
 	return m, nil
 }
 
+// removeModule drops the named module from the store (used when the
+// import that registered it fails while running the module's code)
+func (store *ModuleStore) removeModule(name string) {
+	delete(store.modules, name)
+}
+
 // Gets a module or panics
 func (store *ModuleStore) MustGetModule(name string) *Module {
 	m, err := store.GetModule(name)
